@@ -100,7 +100,7 @@ func VerifC04Three() {
 func VerifC04Cuts() {
 	maxFrames, maxBody, ksp := 2, 2, 1
 	if vrt_Tier() > 0 {
-		maxFrames, maxBody, ksp = 3, 3, 2
+		maxFrames, maxBody, ksp = 2, 3, 1 // three frames: VerifC04Three
 	}
 	m := 1 + vrt_Choose("frames", maxFrames)
 	var frames []*vFrame
